@@ -209,28 +209,30 @@ func Compose(dst, src Sliceable, fs feat.Set) error {
 		if f.End() < f.Start() {
 			return errors.New("sequtils: feature end < feature start")
 		}
-		l := min(f.End(), end) - max(f.Start(), offset)
+		// Clip the feature to the sequence; a feature wholly outside contributes nothing.
+		l := max(0, min(f.End(), end)-max(f.Start(), offset))
 		tl += l
 		t[i] = sl.Make(l, l)
-		t[i].Copy(sl.Slice(max(f.Start()-offset, 0), min(f.End()-offset, pLen)))
+		if l > 0 {
+			t[i].Copy(sl.Slice(max(f.Start()-offset, 0), min(f.End()-offset, pLen)))
+		}
 	}
 
 	c := sl.Make(0, tl)
-	var r SliceReverser
 	for i, ts := range t {
 		if f, ok := ff[i].(feat.Orienter); ok && f.Orientation() == feat.Reverse {
+			var r SliceReverser
 			switch src := src.(type) {
 			case SliceReverser:
-				if r == nil {
-					r = src.New().(SliceReverser)
-					if _, ok := src.Alphabet().(alphabet.Complementor); ok {
-						r.SetAlphabet(src.Alphabet())
-						r.SetSlice(ts)
-						r.RevComp()
-					} else {
-						r.SetSlice(ts)
-						r.Reverse()
-					}
+				// Every reverse segment is reversed on its own.
+				r = src.New().(SliceReverser)
+				if _, ok := src.Alphabet().(alphabet.Complementor); ok {
+					r.SetAlphabet(src.Alphabet())
+					r.SetSlice(ts)
+					r.RevComp()
+				} else {
+					r.SetSlice(ts)
+					r.Reverse()
 				}
 			default:
 				return errors.New("sequtils: unable to reverse segment during compose")
